@@ -246,6 +246,7 @@ func (o *objectGoSlice) defineOwnPropertyStr(name unistring.String, descr Proper
 		return true
 	}
 	if name == "length" {
+		o.updateLen()
 		return o.val.runtime.defineArrayLength(&o.lengthProp, descr, o.putLength, throw)
 	}
 	o.val.runtime.typeErrorResult(throw, "Cannot define property '%s' on a Go slice", name)
